@@ -150,6 +150,39 @@ def harness(ctx, args, timeout=1800, env=None):
     return p.stdout
 
 
+def fuzz(ctx, target, kind, seconds, out):
+    """Coverage-guided corpus growth with Go's native fuzzer (offline).  The fuzz target asserts nothing; the corpus
+    it keeps (and any crasher) becomes vectors that are replayed through the tracer and judged by TLC."""
+    build_harness()
+    cache = ctx.fresh("fuzzcache")
+    os.makedirs(cache)
+    crashdir = os.path.join(HARNESS, "testdata", "fuzz", target)
+    shutil.rmtree(crashdir, ignore_errors=True)
+    t0 = time.time()
+    try:
+        p = subprocess.run(["go", "test", "-tags", "verif", "-run", "^$", "-fuzz", "^%s$" % target, "-fuzztime", "%ds" % seconds,
+                            "-test.fuzzcachedir", cache, "."], cwd=HARNESS, env=GOENV, timeout=seconds + 300,
+                           stdout=subprocess.PIPE, stderr=subprocess.STDOUT, text=True)
+        tail = p.stdout.strip().splitlines()[-3:]
+    except subprocess.TimeoutExpired:
+        raise Broken("go test -fuzz %s did not finish" % target)
+    parts = []
+    for d in (os.path.join(cache, target), crashdir):
+        if os.path.isdir(d):
+            part = ctx.fresh("corpus") + ".ndjson"
+            harness(ctx, ["corpus", d, kind, part])
+            parts.append(part)
+    cat(out, *parts)
+    n = count_lines(out)
+    crashed = os.path.isdir(crashdir)
+    shutil.rmtree(crashdir, ignore_errors=True)
+    shutil.rmtree(cache, ignore_errors=True)
+    ctx.extra.setdefault("fuzz", []).append({"target": target, "seconds": seconds, "corpus_vectors": n, "crasher_found": crashed,
+                                             "wall_s": round(time.time() - t0, 1), "tail": tail})
+    log("  F %-28s %ds of coverage-guided fuzzing -> %d corpus vectors%s" % (target, seconds, n, " (CRASHER)" if crashed else ""))
+    return out
+
+
 def hgen(ctx, prop, out, seed=None, tier=None, base=None):
     harness(ctx, ["gen", prop, ctx.seed if seed is None else seed, tier or ctx.tier, out],
             env={"VERIF_BASE": base} if base else None)
@@ -225,6 +258,33 @@ def gen(ctx, module, cfg, out, heap_gb=3, timeout=900, what=""):
     n = count_lines(out)
     log("  G %-28s %-30s %9d vectors %5.1fs  %s" % (module, cfg, n, ctx.tlc_runs[-1]["wall_s"], what))
     return out
+
+
+def tlaps(ctx, relpath, timeout=900):
+    """Optional strengthening: discharge a TLAPS proof (in a scratch copy: tlapm writes a cache next to the file).
+    A proof that does not go through is recorded as a note; it is never a verdict about the code."""
+    src = os.path.join(SPEC, relpath)
+    work = ctx.fresh("tlaps")
+    os.makedirs(work)
+    shutil.copy(src, work)
+    t0 = time.time()
+    try:
+        p = subprocess.run(["tlapm", "--threads", "8", os.path.basename(src)], cwd=work, timeout=timeout,
+                           stdout=subprocess.PIPE, stderr=subprocess.STDOUT, text=True)
+        out = p.stdout
+    except (subprocess.TimeoutExpired, OSError) as e:
+        out = "tlapm did not finish: %s" % e
+    shutil.rmtree(work, ignore_errors=True)
+    m = re.search(r"All (\d+) obligations proved", out)
+    res = {"module": relpath, "proved": bool(m), "obligations": int(m.group(1)) if m else 0,
+           "wall_s": round(time.time() - t0, 1)}
+    ctx.extra.setdefault("tlaps", []).append(res)
+    if m:
+        log("  P %-28s %d proof obligations discharged by TLAPS  %5.1fs" % (relpath, res["obligations"], res["wall_s"]))
+    else:
+        ctx.notes.append("TLAPS proof %s did not go through: %s" % (relpath, out.strip().splitlines()[-1:] or out))
+        log("  P %-28s NOT proved (recorded as a note)" % relpath)
+    return res
 
 
 def tail_errors(out):
